@@ -1,4 +1,922 @@
-(** C02 — soundness of the plan checker. *)
-From Coq Require Import List Arith Bool PeanoNat Lia.
+(** C02 — soundness of the plan checker: [plan_ok q p = true] implies that the stage machine,
+    under EVERY run-time order oracle and on EVERY database, produces exactly the matches of [q]
+    (as sets of substitutions restricted to the variables the plan binds, which include every
+    variable the actions read). *)
+From Coq Require Import List Arith Bool PeanoNat Lia Permutation.
 Import ListNotations.
 Require Import Verif.Query.Spec Verif.Query.Stages Verif.Query.PlanOk Verif.Query.SpecProofs.
+
+(* ------------------------------------------------------------------ reflection *)
+
+Lemma mem_nat_in x l : mem_nat x l = true <-> In x l.
+Proof.
+  unfold mem_nat. rewrite existsb_exists. split.
+  - intros (y & Hy & He). apply Nat.eqb_eq in He. subst. exact Hy.
+  - intros H. exists x. split; [exact H | apply Nat.eqb_refl].
+Qed.
+
+Lemma constr_eqb_eq a b : constr_eqb a b = true <-> a = b.
+Proof.
+  split.
+  - destruct a, b; simpl; try discriminate; intros H; apply andb_true_iff in H; destruct H as [H1 H2];
+      apply Nat.eqb_eq in H1; apply Nat.eqb_eq in H2; subst; reflexivity.
+  - intros <-. destruct a; simpl; rewrite !Nat.eqb_refl; reflexivity.
+Qed.
+
+Lemma mem_cs_in k l : mem_cs k l = true <-> In k l.
+Proof.
+  unfold mem_cs. rewrite existsb_exists. split.
+  - intros (y & Hy & He). apply constr_eqb_eq in He. subst. exact Hy.
+  - intros H. exists k. split; [exact H | apply constr_eqb_eq; reflexivity].
+Qed.
+
+Lemma nodupb_nodup l : nodupb l = true -> NoDup l.
+Proof.
+  induction l as [|x tl IH]; simpl; intros H; [constructor|].
+  apply andb_true_iff in H. destruct H as [H1 H2]. constructor; [|apply IH; exact H2].
+  intros Hin. apply mem_nat_in in Hin. rewrite Hin in H1. discriminate.
+Qed.
+
+Lemma nat_list_eqb_eq : forall a b, nat_list_eqb a b = true -> a = b.
+Proof.
+  induction a as [|x a IH]; destruct b as [|y b]; simpl; intros H; try discriminate; [reflexivity|].
+  apply andb_true_iff in H. destruct H as [H1 H2]. apply Nat.eqb_eq in H1. subst. f_equal. apply IH. exact H2.
+Qed.
+
+Lemma all_cs_forall cs r : all_cs cs r = true <-> forall k, In k cs -> cs_ok r k = true.
+Proof. unfold all_cs. apply forallb_forall. Qed.
+
+Lemma map_eq_combine {A B C} (f : A -> C) (g : B -> C) : forall l1 l2,
+  map f l1 = map g l2 -> forall a b, In (a, b) (combine l1 l2) -> f a = g b.
+Proof.
+  induction l1 as [|x l1 IH]; destruct l2 as [|y l2]; simpl; intros H a b Hin; try contradiction.
+  inversion H. destruct Hin as [Heq|Hin]; [inversion Heq; subst; assumption | eapply IH; eassumption].
+Qed.
+
+Lemma combine_map_eq {A B C} (f : A -> C) (g : B -> C) : forall l1 l2,
+  length l1 = length l2 -> (forall a b, In (a, b) (combine l1 l2) -> f a = g b) -> map f l1 = map g l2.
+Proof.
+  induction l1 as [|x l1 IH]; destruct l2 as [|y l2]; simpl; intros Hl H; try discriminate; [reflexivity|].
+  f_equal; [apply H; left; reflexivity | apply IH; [lia | intros; apply H; right; assumption]].
+Qed.
+
+Lemma nat_list_eqb_refl l : nat_list_eqb l l = true.
+Proof. induction l; simpl; [reflexivity | rewrite Nat.eqb_refl; exact IHl]. Qed.
+
+Lemma nth_map_error {A} (f : A -> nat) : forall l k a, nth_error l k = Some a -> nth k (map f l) 0 = f a.
+Proof.
+  induction l as [|b tl IH]; intros [|k] a H; simpl in *; try discriminate.
+  - inversion H; reflexivity.
+  - apply IH. exact H.
+Qed.
+
+(* ------------------------------------------------------------------ lookup / bind_env *)
+
+Lemma lookup_app e1 e2 x :
+  lookup (e1 ++ e2) x = match lookup e1 x with Some v => Some v | None => lookup e2 x end.
+Proof.
+  induction e1 as [|[y v] tl IH]; simpl; [reflexivity|].
+  destruct (x =? y); [reflexivity | exact IH].
+Qed.
+
+Lemma lookup_notin e x : ~ In x (map fst e) -> lookup e x = None.
+Proof.
+  induction e as [|[y v] tl IH]; simpl; intros H; [reflexivity|].
+  destruct (Nat.eqb_spec x y) as [->|Hne]; [exfalso; apply H; left; reflexivity | apply IH; intros Hin; apply H; right; exact Hin].
+Qed.
+
+Lemma lookup_nodup_in e x v : NoDup (map fst e) -> In (x, v) e -> lookup e x = Some v.
+Proof.
+  induction e as [|[y w] tl IH]; simpl; intros Hnd Hin; [contradiction|].
+  inversion Hnd; subst. destruct Hin as [Heq|Hin].
+  - inversion Heq; subst. rewrite Nat.eqb_refl. reflexivity.
+  - destruct (Nat.eqb_spec x y) as [->|Hne].
+    + exfalso. apply H1. apply in_map_iff. exists (y, v). split; [reflexivity | exact Hin].
+    + apply IH; assumption.
+Qed.
+
+Lemma bind_env_keys bind r : map fst (rev (map (fun b : nat * nat => (snd b, col r (fst b))) bind)) = rev (map snd bind).
+Proof. rewrite <- map_rev, !map_map. rewrite <- map_rev. reflexivity. Qed.
+
+Lemma lookup_bind_env_other bind r e y :
+  ~ In y (map snd bind) -> lookup (bind_env bind r e) y = lookup e y.
+Proof.
+  intros H. unfold bind_env. rewrite lookup_app. rewrite lookup_notin; [reflexivity|].
+  rewrite bind_env_keys. intros Hin. apply H. apply in_rev. exact Hin.
+Qed.
+
+Lemma lookup_bind_env_in bind r e c x :
+  NoDup (map snd bind) -> In (c, x) bind -> lookup (bind_env bind r e) x = Some (col r c).
+Proof.
+  intros Hnd Hin. unfold bind_env. rewrite lookup_app.
+  rewrite (lookup_nodup_in _ x (col r c)); [reflexivity | |].
+  - rewrite bind_env_keys. apply NoDup_rev. exact Hnd.
+  - apply in_rev. rewrite rev_involutive. apply in_map_iff. exists (c, x). split; [reflexivity | exact Hin].
+Qed.
+
+(* ------------------------------------------------------------------ subsets *)
+
+Lemma length_upd_nth {A} (f : A -> A) : forall l i, length (upd_nth i f l) = length l.
+Proof. induction l as [|a tl IH]; intros [|i]; simpl; try reflexivity. rewrite IH. reflexivity. Qed.
+
+Lemma nth_upd_nth_same {A} (f : A -> A) d : forall l i, i < length l -> nth i (upd_nth i f l) d = f (nth i l d).
+Proof. induction l as [|a tl IH]; intros [|i] H; simpl in *; try lia; [reflexivity | apply IH; lia]. Qed.
+
+Lemma nth_upd_nth_other {A} (f : A -> A) d : forall l i j, i <> j -> nth j (upd_nth i f l) d = nth j l d.
+Proof.
+  induction l as [|a tl IH]; intros [|i] [|j] H; simpl; try reflexivity; try lia.
+  apply IH. lia.
+Qed.
+
+Lemma nth_refine i keep s j :
+  nth j (refine i keep s) [] = if i =? j then filter keep (nth j s []) else nth j s [].
+Proof.
+  unfold refine. destruct (Nat.eqb_spec i j) as [->|Hne].
+  - destruct (Nat.lt_ge_cases j (length s)) as [Hlt|Hge].
+    + apply nth_upd_nth_same. exact Hlt.
+    + rewrite !nth_overflow; [reflexivity | exact Hge | rewrite length_upd_nth; exact Hge].
+  - apply nth_upd_nth_other. exact Hne.
+Qed.
+
+(** a list of (atom, row predicate) refinements applied in sequence *)
+Fixpoint refine_list (fs : list (nat * (row -> bool))) (s : subsets) : subsets :=
+  match fs with
+  | [] => s
+  | f :: tl => refine_list tl (refine (fst f) (snd f) s)
+  end.
+
+Lemma refine_list_length : forall fs s, length (refine_list fs s) = length s.
+Proof. induction fs as [|f tl IH]; intros s; simpl; [reflexivity|]. rewrite IH. apply length_upd_nth. Qed.
+
+Lemma in_refine_list : forall fs s j r,
+  In r (nth j (refine_list fs s) []) <->
+  In r (nth j s []) /\ forall f, In f fs -> fst f = j -> snd f r = true.
+Proof.
+  induction fs as [|f tl IH]; intros s j r; simpl.
+  - split; [intros H; split; [exact H | intros ? []] | intros [H _]; exact H].
+  - rewrite IH. rewrite nth_refine. split.
+    + intros [H1 H2]. destruct (Nat.eqb_spec (fst f) j) as [He|Hne].
+      * apply filter_In in H1. destruct H1 as [H1 H1']. split; [exact H1|].
+        intros g [<-|Hg] Hj; [exact H1' | apply H2; assumption].
+      * split; [exact H1|]. intros g [<-|Hg] Hj; [contradiction | apply H2; assumption].
+    + intros [H1 H2]. split.
+      * destruct (Nat.eqb_spec (fst f) j) as [He|Hne]; [|exact H1].
+        apply filter_In. split; [exact H1 | apply H2; [left; reflexivity | exact He]].
+      * intros g Hg Hj. apply H2; [right; exact Hg | exact Hj].
+Qed.
+
+Lemma refine_scans_list : forall scans v s,
+  refine_scans scans v s = refine_list (map (fun sc => (s_atom sc, scan_keep sc v)) scans) s.
+Proof. induction scans as [|sc tl IH]; intros v s; simpl; [reflexivity | apply IH]. Qed.
+
+Lemma refine_mscans_list : forall ms key s,
+  refine_mscans ms key s = refine_list (map (fun m => (m_atom m, mscan_keep m key)) ms) s.
+Proof. induction ms as [|m tl IH]; intros key s; simpl; [reflexivity | apply IH]. Qed.
+
+Lemma in_refine_scans scans v s j r :
+  In r (nth j (refine_scans scans v s) []) <->
+  In r (nth j s []) /\ forall sc, In sc scans -> s_atom sc = j -> scan_keep sc v r = true.
+Proof.
+  rewrite refine_scans_list, in_refine_list. split; intros [H1 H2]; (split; [exact H1|]).
+  - intros sc Hsc Hj. apply (H2 (s_atom sc, scan_keep sc v)); [|exact Hj].
+    apply in_map_iff. exists sc. split; [reflexivity | exact Hsc].
+  - intros f Hf Hj. apply in_map_iff in Hf. destruct Hf as (sc & <- & Hsc). apply H2; assumption.
+Qed.
+
+Lemma in_refine_mscans ms key s j r :
+  In r (nth j (refine_mscans ms key s) []) <->
+  In r (nth j s []) /\ forall m, In m ms -> m_atom m = j -> mscan_keep m key r = true.
+Proof.
+  rewrite refine_mscans_list, in_refine_list. split; intros [H1 H2]; (split; [exact H1|]).
+  - intros m Hm Hj. apply (H2 (m_atom m, mscan_keep m key)); [|exact Hj].
+    apply in_map_iff. exists m. split; [reflexivity | exact Hm].
+  - intros f Hf Hj. apply in_map_iff in Hf. destruct Hf as (m & <- & Hm). apply H2; assumption.
+Qed.
+
+Lemma alive_nth s : alive s = true <-> forall j, j < length s -> nth j s [] <> [].
+Proof.
+  unfold alive. rewrite forallb_forall. split.
+  - intros H j Hj He. specialize (H (nth j s []) (nth_In _ _ Hj)). rewrite He in H. discriminate.
+  - intros H l Hl. destruct (In_nth _ _ [] Hl) as (j & Hj & <-).
+    specialize (H j Hj). destruct (nth j s []); [contradiction | reflexivity].
+Qed.
+
+(* ------------------------------------------------------------------ remove_nth *)
+
+Lemma remove_nth_perm {A} (d : A) : forall l i, i < length l -> Permutation (nth i l d :: remove_nth i l) l.
+Proof.
+  induction l as [|a tl IH]; intros [|i] H; simpl in *; try lia.
+  - apply Permutation_refl.
+  - eapply perm_trans; [apply perm_swap|]. apply perm_skip. apply IH. lia.
+Qed.
+
+Lemma remove_nth_length {A} : forall (l : list A) i, i < length l -> length (remove_nth i l) = length l - 1.
+Proof.
+  induction l as [|a tl IH]; intros [|i] H; simpl in *; try lia.
+  rewrite IH by lia. lia.
+Qed.
+
+(* ------------------------------------------------------------------ query-side facts *)
+
+Lemma has_var_in q i c x :
+  has_var (atom_at q i) c x = true ->
+  exists a, nth_error (q_atoms q) i = Some a /\ atom_at q i = a /\ In (c, AVar x) (iargs a).
+Proof.
+  unfold has_var, atom_at. intros H.
+  destruct (nth_error (q_atoms q) i) as [a|] eqn:Hn.
+  - assert (Ha : nth i (q_atoms q) dummy_atom = a) by (apply nth_error_nth; exact Hn).
+    rewrite Ha in H. exists a. split; [reflexivity|]. split; [exact Ha|].
+    apply in_iargs. destruct (nth_error (a_args a) c) as [g|]; [|discriminate].
+    destruct g as [y|k]; simpl in H; [|discriminate]. apply Nat.eqb_eq in H. subst. reflexivity.
+  - rewrite nth_overflow in H by (apply nth_error_None; exact Hn). simpl in H.
+    destruct c; discriminate.
+Qed.
+
+Lemma atom_at_nth q i a : nth_error (q_atoms q) i = Some a -> atom_at q i = a.
+Proof. intros H. unfold atom_at. apply nth_error_nth. exact H. Qed.
+
+(** a justified constraint holds on every row that satisfies the atom *)
+Lemma cs_just_sound a t w k : row_ok a t w -> cs_just a k = true -> cs_ok w k = true.
+Proof.
+  intros [Hcs Hargs] H. unfold cs_just in H. apply orb_true_iff in H. destruct H as [H|H].
+  - apply mem_cs_in in H. apply (proj1 (all_cs_forall _ _) Hcs). exact H.
+  - destruct k as [c1 c2|c kk| | | |]; try discriminate.
+    + destruct (nth_error (a_args a) c1) as [[x|]|] eqn:H1; try discriminate.
+      unfold has_var in H. destruct (nth_error (a_args a) c2) as [[y|]|] eqn:H2; try discriminate.
+      simpl in H. apply Nat.eqb_eq in H. subst y.
+      apply in_iargs in H1. apply in_iargs in H2.
+      pose proof (Hargs _ _ H1) as E1. pose proof (Hargs _ _ H2) as E2. simpl in E1, E2.
+      rewrite E1 in E2. inversion E2 as [E]. simpl. rewrite E. apply Nat.eqb_refl.
+    + unfold has_const in H. destruct (nth_error (a_args a) c) as [[|k']|] eqn:H1; try discriminate.
+      apply Nat.eqb_eq in H. subst k'. apply in_iargs in H1. pose proof (Hargs _ _ H1) as E. simpl in E.
+      simpl. rewrite E. apply Nat.eqb_refl.
+Qed.
+
+Lemma vfacts_bound i st c x : In (c, x) (stage_vfacts i st) -> In x (bound st).
+Proof.
+  destruct st as [y scans|cov cs bind others]; simpl.
+  - intros H. apply in_flat_map in H. destruct H as (sc & _ & H).
+    destruct (s_atom sc =? i); [|destruct H]. destruct H as [H|[]]. inversion H. left; reflexivity.
+  - intros H. apply in_app_or in H. destruct H as [H|H].
+    + destruct (cov =? i); [|destruct H]. apply in_map_iff. exists (c, x). split; [reflexivity | exact H].
+    + apply in_flat_map in H. destruct H as (m & _ & H). destruct (m_atom m =? i); [|destruct H].
+      apply in_flat_map in H. destruct H as ([c' ox] & Hp & H). simpl in H.
+      destruct ox as [x'|]; [|destruct H]. destruct H as [H|[]]. inversion H; subst.
+      unfold mscan_pairs in Hp. apply in_map_iff in Hp. destruct Hp as ([cc kk] & Heq & _).
+      simpl in Heq. inversion Heq as [[E1 E2]].
+      destruct (nth_error bind kk) as [b|] eqn:Hb; [|discriminate]. simpl in E2. inversion E2; subst.
+      apply in_map. eapply nth_error_In. exact Hb.
+Qed.
+
+(** column-equality closure is sound on any row satisfying the evaluated constraints *)
+Lemma eq_step_sound cs w S c :
+  (forall k, In k cs -> cs_ok w k = true) -> In c (eq_step cs S) ->
+  exists c0, In c0 S /\ col w c = col w c0.
+Proof.
+  intros Hcs H. unfold eq_step in H. apply in_app_or in H. destruct H as [H|H].
+  - exists c. split; [exact H | reflexivity].
+  - apply in_flat_map in H. destruct H as (k & Hk & H).
+    destruct k as [a b| | | | |]; try destruct H.
+    pose proof (Hcs _ Hk) as E. simpl in E. apply Nat.eqb_eq in E.
+    apply in_app_or in H. destruct H as [H|H].
+    + destruct (mem_nat a S) eqn:Ha; [|destruct H]. destruct H as [<-|[]].
+      exists a. split; [apply mem_nat_in; exact Ha | symmetry; exact E].
+    + destruct (mem_nat b S) eqn:Hb; [|destruct H]. destruct H as [<-|[]].
+      exists b. split; [apply mem_nat_in; exact Hb | exact E].
+Qed.
+
+Lemma closure_sound cs w : forall n S c,
+  (forall k, In k cs -> cs_ok w k = true) -> In c (closure cs n S) ->
+  exists c0, In c0 S /\ col w c = col w c0.
+Proof.
+  induction n as [|n IH]; intros S c Hcs H; simpl in H.
+  - exists c. split; [exact H | reflexivity].
+  - destruct (IH _ _ Hcs H) as (c1 & H1 & E1).
+    destruct (eq_step_sound _ _ _ _ Hcs H1) as (c0 & H0 & E0).
+    exists c0. split; [exact H0 | congruence].
+Qed.
+
+Lemma first_col_in a x c : In c (first_col a x) -> In (c, AVar x) (iargs a).
+Proof.
+  unfold first_col. destruct (find _ (iargs a)) as [[c' g]|] eqn:Hf; [|intros []].
+  intros [<-|[]]. apply find_some in Hf. destruct Hf as [Hin Hv]. simpl in Hv.
+  destruct g as [y|]; simpl in Hv; [|discriminate]. apply Nat.eqb_eq in Hv. subst. exact Hin.
+Qed.
+
+Lemma occurs_in_iargs a c x : In (c, AVar x) (iargs a) -> occurs_in a x = true.
+Proof.
+  intros H. apply in_iargs in H. unfold occurs_in. apply existsb_exists.
+  exists (AVar x). split; [eapply nth_error_In; exact H | simpl; apply Nat.eqb_refl].
+Qed.
+
+Lemma in_iatoms q i a : In (i, a) (iatoms q) <-> nth_error (q_atoms q) i = Some a.
+Proof.
+  unfold iatoms. rewrite in_combine_seq, Nat.sub_0_r. split; [intros [_ H]; exact H | intros H; split; [lia | exact H]].
+Qed.
+
+Lemma step_intersect_in x sc0 scans' e s r0 :
+  In r0 (nth (s_atom sc0) s []) ->
+  alive (refine_scans (sc0 :: scans') (col r0 (s_col sc0)) s) = true ->
+  In ((x, col r0 (s_col sc0)) :: e, refine_scans (sc0 :: scans') (col r0 (s_col sc0)) s)
+     (step (Intersect x (sc0 :: scans')) e s).
+Proof.
+  intros Hr Hal. unfold step. apply in_flat_map. exists r0. split; [exact Hr|].
+  cbv zeta. rewrite Hal. left; reflexivity.
+Qed.
+
+Lemma step_fused_in cov cs bind others e s r :
+  In r (nth cov s []) -> all_cs cs r = true ->
+  alive (refine_mscans others (map (fun b : nat * nat => col r (fst b)) bind) (upd_nth cov (fun _ => [r]) s)) = true ->
+  In (bind_env bind r e,
+      refine_mscans others (map (fun b : nat * nat => col r (fst b)) bind) (upd_nth cov (fun _ => [r]) s))
+     (step (Fused cov cs bind others) e s).
+Proof.
+  intros Hr Hcs Hal. unfold step. apply in_flat_map. exists r. split; [exact Hr|].
+  rewrite Hcs. cbv zeta. rewrite Hal. left; reflexivity.
+Qed.
+
+(* ------------------------------------------------------------------ the main argument *)
+
+Section Sound.
+  Variable q : query.
+  Variable p : plan.
+  Variable d : db.
+  Variable ch : chooser.
+  Hypothesis OK : plan_ok q p = true.
+
+  Let atoms := q_atoms q.
+  Let N := length atoms.
+  Let s0 := init_subs p d.
+
+  Lemma ok_parts :
+    p_tabs p = map a_tab atoms /\
+    (forall h k, In h (p_headers p) -> In k (h_cs h) -> cs_just (atom_at q (h_atom h)) k = true) /\
+    (forall st, In st (p_stages p) -> stage_valid q st = true) /\
+    NoDup (plan_vars p) /\
+    (forall i a, nth_error atoms i = Some a -> atom_covered q p i a = true) /\
+    (forall x, In x (q_out q) -> In x (plan_vars p)).
+  Proof.
+    pose proof OK as K. unfold plan_ok in K.
+    apply andb_true_iff in K. destruct K as [K K6].
+    apply andb_true_iff in K. destruct K as [K K5].
+    apply andb_true_iff in K. destruct K as [K K4].
+    apply andb_true_iff in K. destruct K as [K K3].
+    apply andb_true_iff in K. destruct K as [K1 K2].
+    repeat split.
+    - apply nat_list_eqb_eq. exact K1.
+    - intros h k Hh Hk. rewrite forallb_forall in K2. specialize (K2 _ Hh). rewrite forallb_forall in K2. apply K2. exact Hk.
+    - intros st Hst. rewrite forallb_forall in K3. apply K3. exact Hst.
+    - apply nodupb_nodup. exact K4.
+    - intros i a Hn. rewrite forallb_forall in K5. apply (K5 (i, a)). apply in_iatoms. exact Hn.
+    - intros x Hx. rewrite forallb_forall in K6. apply mem_nat_in. apply K6. exact Hx.
+  Qed.
+
+  Lemma init_len : length s0 = N.
+  Proof.
+    unfold s0, init_subs. rewrite map_length, combine_length, seq_length, Nat.min_id.
+    destruct ok_parts as (Ht & _). rewrite Ht, map_length. reflexivity.
+  Qed.
+
+  Lemma init_nth i a : nth_error atoms i = Some a ->
+    nth i s0 [] = filter (header_keep (p_headers p) i) (get_tab d (a_tab a)).
+  Proof.
+    intros Hn. unfold s0, init_subs.
+    destruct ok_parts as (Ht & _).
+    assert (Hlt : i < length atoms) by (apply nth_error_Some; congruence).
+    set (f := fun it : nat * nat => filter (header_keep (p_headers p) (fst it)) (get_tab d (snd it))).
+    assert (Hlen : length (p_tabs p) = length atoms) by (rewrite Ht, map_length; reflexivity).
+    rewrite (nth_indep _ [] (f (0, 0))) by (rewrite map_length, combine_length, seq_length, Nat.min_id, Hlen; exact Hlt).
+    rewrite map_nth. rewrite combine_nth by (rewrite seq_length; reflexivity).
+    rewrite seq_nth by (rewrite Hlen; exact Hlt).
+    unfold f. simpl. rewrite Ht.
+    rewrite (nth_indep _ 0 (a_tab dummy_atom)) by (rewrite map_length; exact Hlt).
+    rewrite map_nth. fold atoms. rewrite (nth_error_nth _ _ _ Hn). reflexivity.
+  Qed.
+
+  (* -------------------------------------------------------------- soundness: nothing else fires *)
+
+  Definition facts_hold (e : env) (done : list stage) (s : subsets) : Prop :=
+    forall st i r, In st done -> In r (nth i s []) ->
+      (forall c x, In (c, x) (stage_vfacts i st) -> lookup e x = Some (col r c)) /\
+      (forall k, In k (stage_cfacts i st) -> cs_ok r k = true).
+
+  Definition sub_of (s' s : subsets) : Prop := forall i r, In r (nth i s' []) -> In r (nth i s []).
+
+  Lemma step_sound st e s e' s' done :
+    In (e', s') (step st e s) ->
+    NoDup (bound st) ->
+    (forall st' x, In st' done -> In x (bound st') -> ~ In x (bound st)) ->
+    facts_hold e done s ->
+    facts_hold e' (st :: done) s' /\ sub_of s' s /\ alive s' = true /\ length s' = length s.
+  Proof.
+    intros Hstep Hnd Hdisj Hfh.
+    assert (Hold : forall s1 e1, sub_of s1 s ->
+              (forall y, ~ In y (bound st) -> lookup e1 y = lookup e y) ->
+              forall st' i r, In st' done -> In r (nth i s1 []) ->
+                (forall c x, In (c, x) (stage_vfacts i st') -> lookup e1 x = Some (col r c)) /\
+                (forall k, In k (stage_cfacts i st') -> cs_ok r k = true)).
+    { intros s1 e1 Hsub Hlk st' i r Hst' Hr.
+      destruct (Hfh st' i r Hst' (Hsub _ _ Hr)) as [Hv Hc]. split; [|exact Hc].
+      intros c x Hcx. rewrite Hlk; [apply Hv; exact Hcx|].
+      apply (Hdisj st' x Hst'). eapply vfacts_bound. exact Hcx. }
+    destruct st as [x scans|cov cs bind others]; simpl in Hstep.
+    - (* Intersect *)
+      destruct scans as [|sc0 scans']; [destruct Hstep|].
+      apply in_flat_map in Hstep. destruct Hstep as (r0 & Hr0 & Hstep).
+      set (v := col r0 (s_col sc0)) in *. remember (sc0 :: scans') as scans eqn:Hscans.
+      destruct (alive (refine_scans scans v s)) eqn:Hal; [|destruct Hstep].
+      destruct Hstep as [Heq|[]]. inversion Heq; subst e' s'. clear Heq.
+      assert (Hsub : sub_of (refine_scans scans v s) s).
+      { intros i r Hr. apply in_refine_scans in Hr. exact (proj1 Hr). }
+      split; [|split; [|split]].
+      + intros st' i r [<-|Hst'] Hr.
+        * apply in_refine_scans in Hr. destruct Hr as [Hr Hk]. split.
+          -- intros c y Hcy. simpl in Hcy. apply in_flat_map in Hcy. destruct Hcy as (sc & Hsc & Hcy).
+             destruct (Nat.eqb_spec (s_atom sc) i) as [Hi|]; [|destruct Hcy].
+             destruct Hcy as [Hcy|[]]. inversion Hcy; subst c y.
+             specialize (Hk sc Hsc Hi). unfold scan_keep in Hk. apply andb_true_iff in Hk.
+             destruct Hk as [Hk _]. apply Nat.eqb_eq in Hk. rewrite lookup_cons_eq, Hk. reflexivity.
+          -- intros k Hkk. simpl in Hkk. apply in_flat_map in Hkk. destruct Hkk as (sc & Hsc & Hkk).
+             destruct (Nat.eqb_spec (s_atom sc) i) as [Hi|]; [|destruct Hkk].
+             specialize (Hk sc Hsc Hi). unfold scan_keep in Hk. apply andb_true_iff in Hk.
+             destruct Hk as [_ Hk]. apply (proj1 (all_cs_forall _ _) Hk). exact Hkk.
+        * apply (Hold _ _ Hsub); [|exact Hst'|exact Hr].
+          intros y Hy. apply lookup_cons_neq. intros ->. apply Hy. left; reflexivity.
+      + exact Hsub.
+      + exact Hal.
+      + rewrite refine_scans_list. apply refine_list_length.
+    - (* Fused *)
+      apply in_flat_map in Hstep. destruct Hstep as (r0 & Hr0 & Hstep).
+      destruct (all_cs cs r0) eqn:Hcs0; [|destruct Hstep].
+      set (key := map (fun b : nat * nat => col r0 (fst b)) bind) in *.
+      set (s1 := upd_nth cov (fun _ => [r0]) s) in *.
+      destruct (alive (refine_mscans others key s1)) eqn:Hal; [|destruct Hstep].
+      destruct Hstep as [Heq|[]]. inversion Heq; subst e' s'. clear Heq.
+      assert (Hcovlt : cov < length s).
+      { destruct (Nat.lt_ge_cases cov (length s)) as [H|H]; [exact H|].
+        rewrite nth_overflow in Hr0 by exact H. destruct Hr0. }
+      assert (Hs1 : forall i r, In r (nth i s1 []) -> In r (nth i s []) /\ (i = cov -> r = r0)).
+      { intros i r Hr. unfold s1 in Hr. destruct (Nat.eq_dec cov i) as [<-|Hne].
+        - rewrite nth_upd_nth_same in Hr by exact Hcovlt. destruct Hr as [<-|[]]. split; [exact Hr0 | reflexivity].
+        - rewrite nth_upd_nth_other in Hr by exact Hne. split; [exact Hr | intros ->; contradiction]. }
+      assert (Hsub : sub_of (refine_mscans others key s1) s).
+      { intros i r Hr. apply in_refine_mscans in Hr. apply Hs1. exact (proj1 Hr). }
+      simpl in Hnd.
+      split; [|split; [|split]].
+      + intros st' i r [<-|Hst'] Hr.
+        * apply in_refine_mscans in Hr. destruct Hr as [Hr Hk]. destruct (Hs1 _ _ Hr) as [_ Hcov]. split.
+          -- intros c y Hcy. simpl in Hcy. apply in_app_or in Hcy. destruct Hcy as [Hcy|Hcy].
+             ++ destruct (Nat.eqb_spec cov i) as [Hi|]; [|destruct Hcy].
+                rewrite (Hcov (eq_sym Hi)). apply lookup_bind_env_in; assumption.
+             ++ apply in_flat_map in Hcy. destruct Hcy as (m & Hm & Hcy).
+                destruct (Nat.eqb_spec (m_atom m) i) as [Hi|]; [|destruct Hcy].
+                apply in_flat_map in Hcy. destruct Hcy as ([c' ox] & Hp & Hcy). simpl in Hcy.
+                destruct ox as [x'|]; [|destruct Hcy]. destruct Hcy as [Hcy|[]]. inversion Hcy; subst c' x'.
+                unfold mscan_pairs in Hp. apply in_map_iff in Hp. destruct Hp as ([cc kk] & Heq & Hck).
+                simpl in Heq. inversion Heq as [[E1 E2]]. subst cc.
+                destruct (nth_error bind kk) as [[cb xb]|] eqn:Hb; [|discriminate]. simpl in E2. inversion E2; subst xb.
+                specialize (Hk m Hm Hi). unfold mscan_keep in Hk. apply andb_true_iff in Hk. destruct Hk as [Hk _].
+                apply nat_list_eqb_eq in Hk.
+                pose proof (map_eq_combine _ _ _ _ Hk _ _ Hck) as E. simpl in E.
+                rewrite E. unfold key.
+                assert (Hkey : nth kk (map (fun b : nat * nat => col r0 (fst b)) bind) 0 = col r0 cb).
+                { exact (nth_map_error (fun b : nat * nat => col r0 (fst b)) bind kk _ Hb). }
+                rewrite Hkey. apply lookup_bind_env_in; [assumption | eapply nth_error_In; exact Hb].
+          -- intros k Hkk. simpl in Hkk. apply in_app_or in Hkk. destruct Hkk as [Hkk|Hkk].
+             ++ destruct (Nat.eqb_spec cov i) as [Hi|]; [|destruct Hkk].
+                rewrite (Hcov (eq_sym Hi)). apply (proj1 (all_cs_forall _ _) Hcs0). exact Hkk.
+             ++ apply in_flat_map in Hkk. destruct Hkk as (m & Hm & Hkk).
+                destruct (Nat.eqb_spec (m_atom m) i) as [Hi|]; [|destruct Hkk].
+                specialize (Hk m Hm Hi). unfold mscan_keep in Hk. apply andb_true_iff in Hk. destruct Hk as [_ Hk].
+                apply (proj1 (all_cs_forall _ _) Hk). exact Hkk.
+        * apply (Hold _ _ Hsub); [|exact Hst'|exact Hr].
+          intros y Hy. apply lookup_bind_env_other. exact Hy.
+      + exact Hsub.
+      + exact Hal.
+      + rewrite refine_mscans_list, refine_list_length. unfold s1. apply length_upd_nth.
+  Qed.
+
+  Lemma nodup_app_inv {A} (a b : list A) :
+    NoDup (a ++ b) -> NoDup a /\ NoDup b /\ forall x, In x a -> ~ In x b.
+  Proof.
+    induction a as [|y a IH]; simpl; intros H.
+    - split; [constructor | split; [exact H | intros ? []]].
+    - inversion H as [|? ? Hy Hnd]; subst. destruct (IH Hnd) as (Ha & Hb & Hd).
+      split; [constructor; [intros Hin; apply Hy; apply in_or_app; left; exact Hin | exact Ha]|].
+      split; [exact Hb|]. intros x [<-|Hx]; [intros Hin; apply Hy; apply in_or_app; right; exact Hin | apply Hd; exact Hx].
+  Qed.
+
+  Lemma run_sound : forall n rem done e s sg,
+    length rem = n -> Permutation (done ++ rem) (p_stages p) ->
+    facts_hold e done s -> sub_of s s0 -> alive s = true -> length s = N ->
+    In sg (run ch n rem e s) ->
+    exists s', facts_hold sg (p_stages p) s' /\ sub_of s' s0 /\ alive s' = true /\ length s' = N.
+  Proof.
+    induction n as [|n IH]; intros rem done e s sg Hlen Hperm Hfh Hsub Hal Hls Hin.
+    - destruct rem; [|discriminate]. simpl in Hin. destruct Hin as [<-|[]].
+      exists s. split; [|auto]. rewrite app_nil_r in Hperm.
+      intros st i r Hst Hr. apply Hfh; [|exact Hr]. eapply Permutation_in; [apply Permutation_sym; exact Hperm | exact Hst].
+    - destruct rem as [|st0 rem']; [discriminate|].
+      set (rem := st0 :: rem') in *.
+      unfold run in Hin; fold run in Hin. unfold rem in Hin at 1.
+      set (i := ch e s rem mod length rem) in *.
+      assert (Hi : i < length rem) by (apply Nat.mod_upper_bound; unfold rem; simpl; lia).
+      set (st := nth i rem st0) in *.
+      apply in_flat_map in Hin. destruct Hin as ([e1 s1] & Hstep & Hin). simpl in Hin.
+      pose proof (remove_nth_perm st0 rem i Hi) as Hp1. fold st in Hp1.
+      assert (Hperm2 : Permutation (st :: done ++ remove_nth i rem) (p_stages p)).
+      { eapply perm_trans; [|exact Hperm]. eapply perm_trans; [apply Permutation_middle|].
+        apply Permutation_app_head. exact Hp1. }
+      destruct ok_parts as (_ & _ & _ & Hnd & _).
+      unfold plan_vars in Hnd.
+      assert (Hnd2 : NoDup (bound st ++ flat_map bound (done ++ remove_nth i rem))).
+      { eapply Permutation_NoDup; [|exact Hnd]. apply Permutation_sym.
+        change (bound st ++ flat_map bound (done ++ remove_nth i rem)) with (flat_map bound (st :: done ++ remove_nth i rem)).
+        apply Permutation_flat_map. exact Hperm2. }
+      destruct (nodup_app_inv _ _ Hnd2) as (Hndst & _ & Hdisj).
+      destruct (step_sound st e s e1 s1 done Hstep Hndst) as (Hfh1 & Hsub1 & Hal1 & Hlen1).
+      + intros st' x Hst' Hx Hxst. apply (Hdisj x Hxst).
+        apply in_flat_map. exists st'. split; [apply in_or_app; left; exact Hst' | exact Hx].
+      + exact Hfh.
+      + apply (IH (remove_nth i rem) (st :: done) e1 s1 sg).
+        * rewrite remove_nth_length by exact Hi. unfold rem in *. simpl in *. lia.
+        * exact Hperm2.
+        * exact Hfh1.
+        * intros j r Hr. apply Hsub, Hsub1. exact Hr.
+        * exact Hal1.
+        * lia.
+        * exact Hin.
+  Qed.
+
+  Lemma in_combine_nth_error {A B} : forall (l1 : list A) (l2 : list B) a b,
+    In (a, b) (combine l1 l2) -> exists i, nth_error l1 i = Some a /\ nth_error l2 i = Some b.
+  Proof.
+    induction l1 as [|x l1 IH]; destruct l2 as [|y l2]; simpl; intros a b H; try contradiction.
+    destruct H as [H|H].
+    - inversion H; subst. exists 0. split; reflexivity.
+    - destruct (IH _ _ _ H) as (i & H1 & H2). exists (S i). split; assumption.
+  Qed.
+
+  Lemma Forall2_nth {A B} (P : A -> B -> Prop) (dflt : B) : forall (l1 : list A) (l2 : list B),
+    length l1 = length l2 -> (forall i a, nth_error l1 i = Some a -> P a (nth i l2 dflt)) -> Forall2 P l1 l2.
+  Proof.
+    induction l1 as [|x l1 IH]; destruct l2 as [|y l2]; simpl; intros Hl H; try discriminate; constructor.
+    - apply (H 0 x eq_refl).
+    - apply IH; [lia|]. intros i a Hi. apply (H (S i) a Hi).
+  Qed.
+
+  Lemma Forall2_nth_inv {A B} (P : A -> B -> Prop) (dflt : B) : forall (l1 : list A) (l2 : list B),
+    Forall2 P l1 l2 -> forall i a, nth_error l1 i = Some a -> P a (nth i l2 dflt).
+  Proof.
+    induction 1 as [|x y l1 l2 Hxy HF IH]; intros [|i] a Hi; simpl in *; try discriminate.
+    - inversion Hi; subst. exact Hxy.
+    - apply IH. exact Hi.
+  Qed.
+
+  Lemma hd_in (l : list row) : l <> [] -> In (hd [] l) l.
+  Proof. destruct l; [contradiction | intros _; left; reflexivity]. Qed.
+
+  Lemma closure_nil cs : forall n, closure cs n [] = [].
+  Proof.
+    assert (E : eq_step cs [] = []).
+    { unfold eq_step. simpl. induction cs as [|k tl IHc]; simpl; [reflexivity|]. destruct k; simpl; exact IHc. }
+    induction n as [|n IH]; simpl; [reflexivity|].
+    rewrite E. exact IH.
+  Qed.
+
+  (** from a final state of the stage machine to a match of the query *)
+  Lemma final_to_match sg s' :
+    facts_hold sg (p_stages p) s' -> sub_of s' s0 -> alive s' = true -> length s' = N ->
+    exists t, In t (matches q d) /\ agree (plan_vars p) sg t.
+  Proof.
+    intros Hfh Hsub Hal Hlen.
+    destruct ok_parts as (Htabs & Hhdr & Hvalid & Hnd & Hcov & _).
+    set (ws := map (hd []) s').
+    assert (Hws : forall i, nth i ws [] = hd [] (nth i s' [])).
+    { intros i. unfold ws. exact (map_nth (@hd row []) s' [] i). }
+    assert (F1 : forall i a, nth_error atoms i = Some a -> In (nth i ws []) (nth i s' [])).
+    { intros i a Hn. rewrite Hws. apply hd_in. apply (proj1 (alive_nth _) Hal).
+      rewrite Hlen. apply nth_error_Some. fold atoms. congruence. }
+    assert (F2 : forall i a, nth_error atoms i = Some a ->
+              In (nth i ws []) (get_tab d (a_tab a)) /\ header_keep (p_headers p) i (nth i ws []) = true).
+    { intros i a Hn. pose proof (Hsub _ _ (F1 i a Hn)) as H. rewrite (init_nth i a Hn) in H.
+      apply filter_In in H. exact H. }
+    assert (F3 : forall i a, nth_error atoms i = Some a ->
+              forall k, In k (atom_ecs p i) -> cs_ok (nth i ws []) k = true).
+    { intros i a Hn k Hk. unfold atom_ecs in Hk. apply in_app_or in Hk. destruct Hk as [Hk|Hk].
+      - unfold header_cfacts in Hk. apply in_flat_map in Hk. destruct Hk as (h & Hh & Hk).
+        destruct (h_atom h =? i) eqn:Hi; [|destruct Hk].
+        destruct (F2 i a Hn) as [_ Hkeep]. unfold header_keep in Hkeep. rewrite forallb_forall in Hkeep.
+        specialize (Hkeep h Hh). rewrite Hi in Hkeep. apply (proj1 (all_cs_forall _ _) Hkeep). exact Hk.
+      - apply in_flat_map in Hk. destruct Hk as (st & Hst & Hk).
+        apply (proj2 (Hfh st i _ Hst (F1 i a Hn))). exact Hk. }
+    assert (F4 : forall i a, nth_error atoms i = Some a ->
+              forall c x, In (c, x) (atom_evs p i) -> lookup sg x = Some (col (nth i ws []) c)).
+    { intros i a Hn c x Hcx. unfold atom_evs in Hcx. apply in_flat_map in Hcx. destruct Hcx as (st & Hst & Hcx).
+      apply (proj1 (Hfh st i _ Hst (F1 i a Hn))). exact Hcx. }
+    (* what coverage gives for every variable position *)
+    assert (F6 : forall i a c x, nth_error atoms i = Some a -> In (c, AVar x) (iargs a) ->
+              (In x (plan_vars p) /\ lookup sg x = Some (col (nth i ws []) c)) \/
+              (~ In x (plan_vars p) /\ only_here q i x = true /\
+               exists c0, In c0 (first_col a x) /\ col (nth i ws []) c = col (nth i ws []) c0)).
+    { intros i a c x Hn Hcx. pose proof (Hcov i a Hn) as Hc. unfold atom_covered in Hc.
+      apply andb_true_iff in Hc. destruct Hc as [_ Hc]. rewrite forallb_forall in Hc.
+      specialize (Hc (c, AVar x) Hcx). simpl in Hc. apply mem_nat_in in Hc.
+      destruct (closure_sound _ (nth i ws []) _ _ _ (F3 i a Hn) Hc) as (c0 & Hc0 & E).
+      unfold seeds in Hc0. destruct (mem_nat x (plan_vars p)) eqn:Hx.
+      - left. split; [apply mem_nat_in; exact Hx|].
+        apply in_map_iff in Hc0. destruct Hc0 as ([c0' x'] & E0 & Hf). simpl in E0. subst c0'.
+        apply filter_In in Hf. destruct Hf as [Hf Hx']. simpl in Hx'. apply Nat.eqb_eq in Hx'. subst x'.
+        rewrite E. apply (F4 i a Hn). exact Hf.
+      - right. split; [intros Hin; apply mem_nat_in in Hin; congruence|].
+        destruct (only_here q i x) eqn:Ho; [|destruct Hc0].
+        split; [reflexivity|]. exists c0. split; [exact Hc0 | exact E]. }
+    assert (Hlenws : length atoms = length ws) by (unfold ws; rewrite map_length; symmetry; exact Hlen).
+    assert (HL : Forall2 (local_ok d) atoms ws).
+    { apply (Forall2_nth _ []); [exact Hlenws|]. intros i a Hn.
+      pose proof (Hcov i a Hn) as Hc. unfold atom_covered in Hc.
+      apply andb_true_iff in Hc. destruct Hc as [Hc1 Hc2]. rewrite forallb_forall in Hc1, Hc2.
+      split; [exact (proj1 (F2 i a Hn))|]. split.
+      - apply all_cs_forall. intros k Hk. apply (F3 i a Hn). apply mem_cs_in. apply Hc1. exact Hk.
+      - intros c k Hck. specialize (Hc2 (c, AConst k) Hck). simpl in Hc2. apply mem_cs_in in Hc2.
+        pose proof (F3 i a Hn _ Hc2) as E. simpl in E. apply Nat.eqb_eq in E. exact E. }
+    assert (HC : pair_consistent (combine atoms ws)).
+    { intros a w b w' c c' x Ha Hb Hca Hcb.
+      destruct (in_combine_nth_error _ _ _ _ Ha) as (i & Hia & Hiw).
+      destruct (in_combine_nth_error _ _ _ _ Hb) as (j & Hjb & Hjw).
+      apply (nth_error_nth _ _ []) in Hiw. apply (nth_error_nth _ _ []) in Hjw. subst w w'.
+      destruct (F6 i a c x Hia Hca) as [[Hx E1]|(Hx & Ho & c0 & Hc0 & E1)];
+        destruct (F6 j b c' x Hjb Hcb) as [[Hx' E2]|(Hx' & Ho' & c0' & Hc0' & E2)]; try contradiction.
+      - rewrite E1 in E2. inversion E2. reflexivity.
+      - (* unbound variable: it occurs in one atom only *)
+        unfold only_here in Ho. rewrite forallb_forall in Ho.
+        specialize (Ho (j, b) (proj2 (in_iatoms q j b) Hjb)). simpl in Ho.
+        rewrite (occurs_in_iargs b c' x Hcb) in Ho. simpl in Ho. rewrite orb_false_r in Ho.
+        apply Nat.eqb_eq in Ho. subst j. fold atoms in Hia, Hjb. rewrite Hia in Hjb. inversion Hjb; subst b.
+        rewrite E1, E2. unfold first_col in Hc0, Hc0'.
+        destruct (find _ (iargs a)); [|destruct Hc0].
+        destruct Hc0 as [<-|[]]. destruct Hc0' as [<-|[]]. reflexivity. }
+    destruct (matches_complete q d ws HL HC) as (t & Ht & Hwit).
+    exists t. split; [exact Ht|].
+    intros x Hx. unfold plan_vars in Hx. apply in_flat_map in Hx. destruct Hx as (st & Hst & Hx).
+    pose proof (Hvalid st Hst) as Hv.
+    assert (Hpos : exists i a c, nth_error atoms i = Some a /\ In (c, AVar x) (iargs a) /\ In (c, x) (stage_vfacts i st)).
+    { destruct st as [y scans|cov cs bind others]; simpl in Hx, Hv.
+      - destruct Hx as [<-|[]]. apply andb_true_iff in Hv. destruct Hv as [Hne Hv].
+        destruct scans as [|sc scans']; [discriminate|]. simpl in Hv. apply andb_true_iff in Hv. destruct Hv as [Hv _].
+        unfold scan_valid in Hv. apply andb_true_iff in Hv. destruct Hv as [Hv _].
+        destruct (has_var_in _ _ _ _ Hv) as (a & Hn & _ & Hin).
+        exists (s_atom sc), a, (s_col sc). split; [exact Hn|]. split; [exact Hin|].
+        simpl. rewrite Nat.eqb_refl. left; reflexivity.
+      - apply in_map_iff in Hx. destruct Hx as ([c x'] & E & Hb). simpl in E. subst x'.
+        apply andb_true_iff in Hv. destruct Hv as [Hv _]. apply andb_true_iff in Hv. destruct Hv as [_ Hv].
+        rewrite forallb_forall in Hv. specialize (Hv _ Hb). simpl in Hv.
+        destruct (has_var_in _ _ _ _ Hv) as (a & Hn & _ & Hin).
+        exists cov, a, c. split; [exact Hn|]. split; [exact Hin|].
+        simpl. rewrite Nat.eqb_refl. apply in_or_app. left. exact Hb. }
+    destruct Hpos as (i & a & c & Hn & Hin & Hvf).
+    rewrite (proj1 (Hfh st i _ Hst (F1 i a Hn)) c x Hvf).
+    pose proof (Forall2_nth_inv _ [] _ _ Hwit i a Hn) as [_ [_ Hargs]].
+    symmetry. exact (Hargs c (AVar x) Hin).
+  Qed.
+
+  Lemma plan_sound_dir sg : In sg (run_plan ch p d) ->
+    exists t, In t (matches q d) /\ agree (plan_vars p) sg t.
+  Proof.
+    unfold run_plan. fold s0. destruct (alive s0) eqn:Hal; [|intros []].
+    intros Hin.
+    destruct (run_sound (length (p_stages p)) (p_stages p) [] [] s0 sg eq_refl (Permutation_refl _)) as (s' & H1 & H2 & H3 & H4).
+    - intros st i r [].
+    - intros i r H; exact H.
+    - exact Hal.
+    - apply init_len.
+    - exact Hin.
+    - eapply final_to_match; eassumption.
+  Qed.
+
+  (* -------------------------------------------------------------- completeness: no match is lost *)
+
+  Lemma lookup_in e x v : lookup e x = Some v -> In (x, v) e.
+  Proof.
+    induction e as [|[y w] tl IH]; simpl; [discriminate|].
+    destruct (Nat.eqb_spec x y) as [->|]; intros H; [inversion H; left; reflexivity | right; apply IH; exact H].
+  Qed.
+
+  Lemma lookup_in_some e x : In x (map fst e) -> lookup e x <> None.
+  Proof.
+    induction e as [|[y w] tl IH]; simpl; [intros []|].
+    destruct (Nat.eqb_spec x y) as [->|Hne]; [intros _; discriminate|].
+    intros [H|H]; [simpl in H; congruence | apply IH; exact H].
+  Qed.
+
+  Section Complete.
+    Variable t : env.
+    Variable ws : list row.
+    Hypothesis Hwit : witness q d t ws.
+
+    Lemma wit_nth i a : nth_error atoms i = Some a ->
+      In (nth i ws []) (get_tab d (a_tab a)) /\ row_ok a t (nth i ws []).
+    Proof. intros Hn. exact (Forall2_nth_inv _ [] _ _ Hwit i a Hn). Qed.
+
+    Definition keeps (s : subsets) : Prop :=
+      length s = N /\ forall i a, nth_error atoms i = Some a -> In (nth i ws []) (nth i s []).
+
+    Lemma keeps_alive s : keeps s -> alive s = true.
+    Proof.
+      intros [Hl Hk]. apply alive_nth. intros j Hj He.
+      destruct (nth_error atoms j) as [a|] eqn:Hn.
+      - pose proof (Hk j a Hn) as H. rewrite He in H. destruct H.
+      - apply nth_error_None in Hn. fold N in Hn. lia.
+    Qed.
+
+    Lemma var_val i a c x : nth_error atoms i = Some a -> has_var (atom_at q i) c x = true ->
+      lookup t x = Some (col (nth i ws []) c).
+    Proof.
+      intros Hn Hv. destruct (has_var_in _ _ _ _ Hv) as (a' & Hn' & _ & Hin).
+      fold atoms in Hn'. rewrite Hn in Hn'. inversion Hn'; subst a'.
+      destruct (wit_nth i a Hn) as [_ [_ Hargs]]. exact (Hargs _ _ Hin).
+    Qed.
+
+    Lemma just_ok i a cs : nth_error atoms i = Some a ->
+      forallb (cs_just (atom_at q i)) cs = true -> all_cs cs (nth i ws []) = true.
+    Proof.
+      intros Hn H. apply all_cs_forall. intros k Hk. rewrite forallb_forall in H.
+      specialize (H k Hk). rewrite (atom_at_nth q i a Hn) in H.
+      destruct (wit_nth i a Hn) as [_ Hrow]. eapply cs_just_sound; eassumption.
+    Qed.
+
+    Lemma step_complete st e s :
+      stage_valid q st = true -> ext e t -> keeps s ->
+      exists e' s', In (e', s') (step st e s) /\ ext e' t /\ keeps s' /\
+        (forall x, In x (bound st) -> lookup e' x <> None) /\
+        (forall x, lookup e x <> None -> lookup e' x <> None).
+    Proof.
+      intros Hv Hext [Hlen Hk].
+      destruct st as [x scans|cov cs bind others]; simpl in Hv.
+      - apply andb_true_iff in Hv. destruct Hv as [Hne Hv]. rewrite forallb_forall in Hv.
+        destruct scans as [|sc0 scans']; [simpl in Hne; discriminate|]. clear Hne.
+        remember (sc0 :: scans') as scans eqn:Hscans.
+        assert (Hsc0 : In sc0 scans) by (subst scans; left; reflexivity).
+        pose proof (Hv sc0 Hsc0) as Hv0. unfold scan_valid in Hv0. apply andb_true_iff in Hv0. destruct Hv0 as [Hv0 _].
+        destruct (has_var_in _ _ _ _ Hv0) as (a0 & Hn0 & _ & _). fold atoms in Hn0.
+        set (w0 := nth (s_atom sc0) ws []).
+        set (v := col w0 (s_col sc0)).
+        assert (Htx : lookup t x = Some v) by (apply (var_val _ a0); assumption).
+        set (s' := refine_scans scans v s).
+        assert (Hk' : keeps s').
+        { split; [unfold s'; rewrite refine_scans_list, refine_list_length; exact Hlen|].
+          intros i a Hn. unfold s'. apply in_refine_scans. split; [apply (Hk i a Hn)|].
+          intros sc Hsc Hi. pose proof (Hv sc Hsc) as Hvs. unfold scan_valid in Hvs. rewrite Hi in Hvs.
+          apply andb_true_iff in Hvs. destruct Hvs as [Hvs1 Hvs2].
+          unfold scan_keep. apply andb_true_iff. split.
+          - pose proof (var_val i a _ _ Hn Hvs1) as E. rewrite Htx in E. inversion E as [E']. apply Nat.eqb_refl.
+          - apply (just_ok i a); assumption. }
+        exists ((x, v) :: e), s'. split; [|split; [|split; [|split]]].
+        + pose proof (keeps_alive _ Hk') as Hal'. unfold s', v in *. rewrite Hscans in *.
+          apply step_intersect_in; [apply (Hk _ a0 Hn0) | exact Hal'].
+        + intros y vy Hy. destruct (Nat.eq_dec y x) as [->|Hne].
+          * rewrite lookup_cons_eq in Hy. inversion Hy; subst. exact Htx.
+          * rewrite lookup_cons_neq in Hy by exact Hne. apply Hext. exact Hy.
+        + exact Hk'.
+        + intros y [<-|[]]. rewrite lookup_cons_eq. discriminate.
+        + intros y Hy. destruct (Nat.eq_dec y x) as [->|Hne];
+            [rewrite lookup_cons_eq; discriminate | rewrite lookup_cons_neq by exact Hne; exact Hy].
+      - apply andb_true_iff in Hv. destruct Hv as [Hv Hv4]. apply andb_true_iff in Hv. destruct Hv as [Hv Hv3].
+        apply andb_true_iff in Hv. destruct Hv as [Hv1 Hv2]. apply Nat.ltb_lt in Hv1.
+        rewrite forallb_forall in Hv3, Hv4.
+        destruct (nth_error atoms cov) as [ac|] eqn:Hnc; [|apply nth_error_None in Hnc; fold atoms in Hv1; lia].
+        set (w := nth cov ws []).
+        set (key := map (fun b : nat * nat => col w (fst b)) bind).
+        set (s1 := upd_nth cov (fun _ => [w]) s).
+        set (s' := refine_mscans others key s1).
+        assert (Hbind : forall c y, In (c, y) bind -> lookup t y = Some (col w c)).
+        { intros c y Hb. apply (var_val cov ac); [exact Hnc | exact (Hv3 _ Hb)]. }
+        assert (Hcovlt : cov < length s) by (rewrite Hlen; exact Hv1).
+        assert (Hk' : keeps s').
+        { split; [unfold s', s1; rewrite refine_mscans_list, refine_list_length, length_upd_nth; exact Hlen|].
+          intros i a Hn. unfold s'. apply in_refine_mscans. split.
+          - unfold s1. destruct (Nat.eq_dec cov i) as [<-|Hne].
+            + rewrite nth_upd_nth_same by exact Hcovlt. left; reflexivity.
+            + rewrite nth_upd_nth_other by exact Hne. apply (Hk i a Hn).
+          - intros m Hm Hi. pose proof (Hv4 m Hm) as Hvm. unfold mscan_valid in Hvm. rewrite Hi in Hvm.
+            apply andb_true_iff in Hvm. destruct Hvm as [Hvm Hvm3]. apply andb_true_iff in Hvm. destruct Hvm as [Hvm1 Hvm2].
+            apply Nat.eqb_eq in Hvm1. rewrite forallb_forall in Hvm2.
+            unfold mscan_keep. apply andb_true_iff. split; [|apply (just_ok i a); assumption].
+            assert (E : map (col (nth i ws [])) (m_cols m) = map (fun k => nth k key 0) (m_key m)).
+            { apply combine_map_eq; [exact Hvm1|]. intros c kk Hck.
+              assert (Hp : In (c, option_map snd (nth_error bind kk)) (mscan_pairs bind m)).
+              { unfold mscan_pairs. apply in_map_iff. exists (c, kk). split; [reflexivity | exact Hck]. }
+              specialize (Hvm2 _ Hp). simpl in Hvm2.
+              destruct (nth_error bind kk) as [[cb xb]|] eqn:Hb; [|discriminate]. simpl in Hvm2.
+              pose proof (var_val i a _ _ Hn Hvm2) as E1.
+              pose proof (Hbind cb xb (nth_error_In _ _ Hb)) as E2. rewrite E1 in E2. inversion E2 as [E3].
+              unfold key. rewrite (nth_map_error (fun b : nat * nat => col w (fst b)) bind kk _ Hb). simpl. exact E3. }
+            rewrite E. apply nat_list_eqb_refl. }
+        exists (bind_env bind w e), s'. split; [|split; [|split; [|split]]].
+        + pose proof (keeps_alive _ Hk') as Hal'. unfold s', s1, key in *.
+          apply step_fused_in; [apply (Hk cov ac Hnc) | exact (just_ok cov ac cs Hnc Hv2) | exact Hal'].
+        + intros y vy Hy. unfold bind_env in Hy. rewrite lookup_app in Hy.
+          destruct (lookup (rev (map (fun b : nat * nat => (snd b, col w (fst b))) bind)) y) as [v'|] eqn:Hl.
+          * inversion Hy; subst v'. apply lookup_in in Hl. apply in_rev in Hl. apply in_map_iff in Hl.
+            destruct Hl as ([c y'] & E & Hb). simpl in E. inversion E; subst. apply Hbind. exact Hb.
+          * apply Hext. exact Hy.
+        + exact Hk'.
+        + intros y Hy. simpl in Hy. unfold bind_env. rewrite lookup_app.
+          destruct (lookup (rev (map (fun b : nat * nat => (snd b, col w (fst b))) bind)) y) eqn:Hl; [discriminate|].
+          exfalso. revert Hl. apply lookup_in_some. rewrite bind_env_keys. apply in_rev. rewrite rev_involutive. exact Hy.
+        + intros y Hy. unfold bind_env. rewrite lookup_app.
+          destruct (lookup (rev (map (fun b : nat * nat => (snd b, col w (fst b))) bind)) y); [discriminate | exact Hy].
+    Qed.
+
+    Lemma run_complete : forall n rem e s,
+      length rem = n -> (forall st, In st rem -> stage_valid q st = true) -> ext e t -> keeps s ->
+      exists sg, In sg (run ch n rem e s) /\ ext sg t /\
+        (forall x, In x (flat_map bound rem) -> lookup sg x <> None) /\
+        (forall x, lookup e x <> None -> lookup sg x <> None).
+    Proof.
+      induction n as [|n IH]; intros rem e s Hlen Hval Hext Hk.
+      - destruct rem; [|discriminate]. exists e. simpl. split; [left; reflexivity|]. split; [exact Hext|]. split; [intros ? [] | auto].
+      - destruct rem as [|st0 rem']; [discriminate|].
+        remember (st0 :: rem') as rem eqn:Hrem.
+        assert (Hne : length rem <> 0) by (subst rem; simpl; lia).
+        set (i := ch e s rem mod length rem).
+        assert (Hi : i < length rem) by (apply Nat.mod_upper_bound; exact Hne).
+        set (st := nth i rem st0).
+        pose proof (remove_nth_perm st0 rem i Hi) as Hp. fold st in Hp.
+        assert (Hst : In st rem) by (apply nth_In; exact Hi).
+        destruct (step_complete st e s (Hval st Hst) Hext Hk) as (e1 & s1 & Hstep & Hext1 & Hk1 & Hb1 & Hp1).
+        destruct (IH (remove_nth i rem) e1 s1) as (sg & Hin & Hextg & Hbg & Hpg).
+        + rewrite remove_nth_length by exact Hi. lia.
+        + intros st' Hst'. apply Hval. eapply Permutation_in; [exact Hp | right; exact Hst'].
+        + exact Hext1.
+        + exact Hk1.
+        + exists sg. split; [|split; [exact Hextg | split]].
+          * rewrite Hrem. unfold run; fold run. rewrite <- Hrem. fold i. fold st.
+            apply in_flat_map. exists (e1, s1). split; [exact Hstep | exact Hin].
+          * intros x Hx. apply in_flat_map in Hx. destruct Hx as (st' & Hst' & Hx).
+            apply (Permutation_in _ (Permutation_sym Hp)) in Hst'. destruct Hst' as [<-|Hst'].
+            -- apply Hpg. apply Hb1. exact Hx.
+            -- apply Hbg. apply in_flat_map. exists st'. split; assumption.
+          * intros x Hx. apply Hpg, Hp1. exact Hx.
+    Qed.
+  End Complete.
+
+  Lemma plan_complete_dir t : In t (matches q d) ->
+    exists sg, In sg (run_plan ch p d) /\ agree (plan_vars p) sg t.
+  Proof.
+    intros Ht. destruct (matches_sound _ _ _ Ht) as (ws & Hwit).
+    destruct ok_parts as (_ & Hhdr & Hvalid & _).
+    assert (Hk0 : keeps ws s0).
+    { split; [apply init_len|]. intros i a Hn. rewrite (init_nth i a Hn).
+      destruct (wit_nth t ws Hwit i a Hn) as [Hin Hrow]. apply filter_In. split; [exact Hin|].
+      unfold header_keep. apply forallb_forall. intros h Hh.
+      destruct (Nat.eqb_spec (h_atom h) i) as [Hi|]; [|reflexivity].
+      apply all_cs_forall. intros k Hk. pose proof (Hhdr h k Hh Hk) as Hj. rewrite Hi in Hj.
+      rewrite (atom_at_nth q i a Hn) in Hj. eapply cs_just_sound; eassumption. }
+    destruct (run_complete t ws Hwit (length (p_stages p)) (p_stages p) [] s0 eq_refl Hvalid) as (sg & Hin & Hext & Hb & _).
+    - intros x v H. discriminate.
+    - exact Hk0.
+    - exists sg. split.
+      + unfold run_plan. fold s0. rewrite (keeps_alive ws _ Hk0). exact Hin.
+      + intros x Hx. specialize (Hb x Hx). destruct (lookup sg x) as [v|] eqn:Hl; [|contradiction].
+        symmetry. apply Hext. exact Hl.
+  Qed.
+End Sound.
+
+(** MAIN THEOREM: a plan accepted by the checker computes, on every database and under every
+    run-time stage order, exactly the matches of the query (as sets of substitutions restricted
+    to the variables the plan binds). *)
+Theorem plan_ok_sound : forall q p, plan_ok q p = true ->
+  forall (d : db) (ch : chooser), sem_eq (plan_vars p) (run_plan ch p d) (matches q d).
+Proof.
+  intros q p OK d ch. split.
+  - intros s Hs. eapply plan_sound_dir; eassumption.
+  - intros t Ht. eapply plan_complete_dir; eassumption.
+Qed.
+
+(** every variable the actions read is bound by the plan, so the rule fires for exactly the
+    matches, seen through the variables the actions can observe *)
+Corollary plan_ok_sound_out : forall q p, plan_ok q p = true ->
+  forall (d : db) (ch : chooser), sem_eq (q_out q) (run_plan ch p d) (matches q d).
+Proof.
+  intros q p OK d ch. destruct (plan_ok_sound q p OK d ch) as [H1 H2].
+  assert (Hsub : forall x, In x (q_out q) -> In x (plan_vars p)).
+  { intros x Hx. unfold plan_ok in OK. apply andb_true_iff in OK. destruct OK as [_ K].
+    rewrite forallb_forall in K. apply mem_nat_in. apply K. exact Hx. }
+  split.
+  - intros s Hs. destruct (H1 s Hs) as (t & Ht & Ha). exists t. split; [exact Ht | intros x Hx; apply Ha, Hsub, Hx].
+  - intros t Ht. destruct (H2 t Ht) as (s & Hs & Ha). exists s. split; [exact Hs | intros x Hx; apply Ha, Hsub, Hx].
+Qed.
+
+(** two accepted plans for the same query fire for the same substitutions (on the variables the
+    actions read), whatever the strategies and run-time orders that produced and ran them *)
+Lemma plans_agree : forall q p1 p2, plan_ok q p1 = true -> plan_ok q p2 = true ->
+  forall (d : db) (ch1 ch2 : chooser) s1, In s1 (run_plan ch1 p1 d) ->
+    exists s2, In s2 (run_plan ch2 p2 d) /\ agree (q_out q) s1 s2.
+Proof.
+  intros q p1 p2 H1 H2 d ch1 ch2 s1 Hs1.
+  destruct (plan_ok_sound_out q p1 H1 d ch1) as [A1 _].
+  destruct (plan_ok_sound_out q p2 H2 d ch2) as [_ B2].
+  destruct (A1 s1 Hs1) as (t & Ht & Ha). destruct (B2 t Ht) as (s2 & Hs2 & Hb).
+  exists s2. split; [exact Hs2|]. intros x Hx. rewrite (Ha x Hx), (Hb x Hx). reflexivity.
+Qed.
